@@ -161,12 +161,13 @@ Target Tables:
         """
         a list of column tuple :class:`sqllineage.models.Column`
         """
-        # sort by target column, and then source column
+        # sort by target column, and then source column; paths sharing both are ordered by the columns in between,
+        # otherwise their order would be the iteration order of a set, which changes with the hash seed of the process
         return sorted(
             self._sql_holder.get_column_lineage(
                 exclude_path_ending_in_subquery, exclude_subquery_columns
             ),
-            key=lambda x: (str(x[-1]), str(x[0])),
+            key=lambda x: (str(x[-1]), str(x[0]), [str(c) for c in x]),
         )
 
     def print_column_lineage(self) -> None:
